@@ -370,7 +370,8 @@ impl G {
             Foldr => matches!(k[0].op, Rep | Sep),
             Group | ChoiceTup => (2..=4).contains(&k.len()),
             GroupArr | ChoiceArr => (2..=3).contains(&k.len()),
-            Choice => (1..=4).contains(&k.len()),
+            // an empty run-time choice (`choice(vec![])`) is legal: it always fails
+            Choice => k.len() <= 4,
             // skip steps must make progress
             RecSkipUntil | RecSkipRetry => !k[1].nullable(),
             _ => true,
